@@ -1,6 +1,6 @@
 /-
   Kernel-checked ties (C14 / C10): the extension-field ENCODERS of net/nts/nts.go — `extHdr.pack`,
-  `Cookie.pack`, `CookiePlaceholder.pack`, `UniqueIdentifier.pack` — as regenerated from /repo's Go
+  `Cookie.pack`, `CookiePlaceholder.pack`, `UniqueIdentifier.pack`, `Authenticator.pack` — as regenerated from /repo's Go
   source on every run (Gen/LeafNts.lean; ninth generation of the leaf translator:
   `binary.BigEndian.PutUint16(buf[pos:], v)` and `n := copy(buf[pos:], src)` on a byte-slice
   PARAMETER, `(n + 3) & ^3`) against `putHdr` / `packValue` / `packUid` of Model/Nts.lean.
@@ -13,8 +13,11 @@
   the bytes behind it are untouched, the length of `buf` is unchanged and the position returned is
   the model's — including the silent truncation of value and padding at the end of the buffer and
   the wrap-around of the 16-bit length field.
-  `Authenticator.pack` is regenerated too (Seal as a function-typed parameter, the nonce from the
-  `rnd` stream) but NOT tied here; `EncodePacket` is not translated (notes/LEAF.md).
+  `Authenticator.pack` (`C10_leaf_Authenticator_pack`): `NewAEAD` error and `Seal` are function-typed
+  parameters, the nonce is the next 16 bytes of the `rnd` stream; equal to the model's `packAuth` for
+  every library that agrees with the model's AEAD on sealing (`AgreeSeal`): the associated data is
+  `buf[:pos]`, the 16-bit length fields wrap as the model says, padding by `(-len) % 4` on `uint16`.
+  `EncodePacket` is not translated (notes/LEAF.md).
 -/
 import ScionTime.Gen.LeafNts
 import ScionTime.Model.Nts
@@ -368,6 +371,13 @@ theorem C10_leaf_UniqueIdentifier_pack (u : S_UniqueIdentifier) (buf : List UInt
 
 /-! ### `Authenticator.pack` -/
 
+theorem copyTrunc_bytes (C : Nat) (Q : Bytes) (src : List UInt8) (q : Nat) (hq : Q.length = q) :
+    copyTrunc C Q (bytesN src) = Q ++ bytesN (src.take (C - q)) := by
+  unfold copyTrunc; rw [hq, bytesN_takeN]
+
+theorem copyTrunc_nil (C : Nat) (Q : Bytes) : copyTrunc C Q [] = Q := by
+  unfold copyTrunc; simp
+
 theorem copy_step (buf W src : List UInt8) (p : Nat) (hL : buf.length < 4611686018427387904)
     (h : p + W.length ≤ buf.length) :
     Go.copyAt? (splice buf p W) (Int64.ofNat (p + W.length)) src =
@@ -395,6 +405,229 @@ structure AgreeSeal (ne : NewErr) (sl : SealF) (A : AEAD) : Prop where
   newErr : ∀ key, ne "AES-CMAC-SIV" key 16 = !keyOk (bytesN key)
   seals : ∀ key n pt ad, n.length = 16 → ∃ ct, sl ("AES-CMAC-SIV", key, 16) [] n pt ad = some ct ∧
     bytesN ct = A.sealF (bytesN key) (bytesN n) (bytesN pt) (some (bytesN ad)) ∧ ct.length < 4611686018427387904
+
+theorem len16 (N : List UInt8) (h : N.length = 16) : (Go.len N).toUInt64.toUInt16 = 16 := by
+  unfold Go.len; rw [h]; decide
+
+theorem len_u16 (x : List UInt8) (h : x.length < 4611686018427387904) :
+    ((Go.len x).toUInt64.toUInt16).toNat = x.length % 65536 := by
+  have hl := len_toInt x h
+  have h1 : (Go.len x).toBitVec.toInt = (x.length : Int) := hl
+  rw [BitVec.toInt_eq_toNat_cond] at h1
+  have hlt := (Go.len x).toBitVec.isLt
+  have h2 : (Go.len x).toBitVec.toNat = x.length := by split at h1 <;> omega
+  rw [UInt64.toNat_toUInt16]
+  have : (Go.len x).toUInt64.toNat = (Go.len x).toBitVec.toNat := rfl
+  rw [this, h2]
+
+/-- **`Authenticator.pack(buf, pos)` = the model's `packAuth`** (`cap = len(buf)`, `out = buf[:pos]`,
+    the nonce = the next 16 bytes of the `crypto/rand` stream), for every library agreeing with the
+    model's AEAD on sealing: key-size error, panic for lack of room, or the authenticator field —
+    header, lengths, nonce, ciphertext and padding — written at `pos`, the rest of `buf` untouched. -/
+theorem C10_leaf_Authenticator_pack (ne : NewErr) (sl : SealF) (A : AEAD) (hA : AgreeSeal ne sl A)
+    (a : S_Authenticator) (buf rnd : List UInt8) (p : Nat) (hL : buf.length < 4611686018427387904)
+    (hp : p ≤ buf.length) (hr : 16 ≤ rnd.length) :
+    match packAuth A buf.length (bytesN (buf.take p)) (bytesN a.Key) (bytesN a.PlainText) (bytesN (rnd.take 16)) with
+    | .ok out' => ∃ buf', nts_Authenticator_pack a buf (Int64.ofNat p) rnd ne sl =
+          some (buf', rnd.drop 16, Int64.ofNat out'.length, false) ∧
+        bytesN (buf'.take out'.length) = out' ∧ buf'.drop out'.length = buf.drop out'.length ∧ buf'.length = buf.length
+    | .err _ => nts_Authenticator_pack a buf (Int64.ofNat p) rnd ne sl = some (buf, rnd, 0, true)
+    | .panic _ => nts_Authenticator_pack a buf (Int64.ofNat p) rnd ne sl = none
+    | .hang => False := by
+  unfold nts_Authenticator_pack packAuth
+  simp only [hA.newErr]
+  cases hk : keyOk (bytesN a.Key) with
+  | false => simp
+  | true =>
+    have hNl : (rnd.take 16).length = 16 := by rw [List.length_take]; omega
+    have hrr : Go.randRead rnd (Go.makeBytes 16) = (rnd.take 16, rnd.drop 16, Go.len (Go.makeBytes 16), false) := by
+      unfold Go.randRead Go.makeBytes
+      rw [List.length_replicate, if_pos hr]
+    have h0 : (0 : Int64).toInt = ((0 : Nat) : Int) := by decide
+    have hpos := ofNat_toInt p (by omega)
+    have hss := ScionTime.LeafTieC14CookiesDec.subslice_spec buf 0 p 0 (Int64.ofNat p) h0 (by rw [hpos]; omega) (by omega)
+    rw [List.drop_zero] at hss
+    obtain ⟨ct, hseal, hctb, hctl⟩ := hA.seals a.Key (rnd.take 16) a.PlainText (buf.take p) hNl
+    have hcl := len_u16 ct hctl
+    simp only [Bool.not_true, bne_self_eq_false, Bool.false_eq_true, if_false, hrr, len16 _ hNl, hss, hseal, Option.bind_some]
+    have e16 : (-16 : UInt16) % 4 = 0 := by decide
+    have emk0 : Go.makeBytesN? ((0 : UInt16).toUInt64.toInt64) = some [] := by decide
+    simp only [e16, emk0, Option.bind_some]
+    generalize hcl16 : (Go.len ct).toUInt64.toUInt16 = cl16 at hcl
+    have hcp : ((-cl16) % 4).toNat = (65536 - cl16.toNat) % 65536 % 4 := by
+      rw [UInt16.toNat_mod, UInt16.toNat_neg]; rfl
+    have hL16 : ((4 : UInt16) + 2 + 2 + 16 + 0 + cl16 + (-cl16) % 4).toNat =
+        (8 + 16 + 0 + cl16.toNat + (65536 - cl16.toNat) % 65536 % 4) % 65536 := by
+      simp only [UInt16.toNat_add, hcp]
+      have h4 : (4 : UInt16).toNat = 4 := rfl
+      have h2 : (2 : UInt16).toNat = 2 := rfl
+      have h16 : (16 : UInt16).toNat = 16 := rfl
+      have h00 : (0 : UInt16).toNat = 0 := rfl
+      rw [h4, h2, h16, h00]
+      have := cl16.toNat_lt
+      omega
+    generalize hLg : ((4 : UInt16) + 2 + 2 + 16 + 0 + cl16 + (-cl16) % 4) = L16 at hL16
+    rw [ScionTime.LeafTieC14Nts.make_spec]
+    generalize hPad : List.replicate ((-cl16) % 4).toNat (0 : UInt8) = Pad
+    simp only [Option.bind_some]
+    rw [hdr_pack_spec _ buf p hL hp]
+    have hbind : ∀ (X : Bytes) (f : Bytes → Res Bytes), ((Res.ok X : Res Bytes) >>= f) = f X := fun _ _ => rfl
+    have hbindp : ∀ (e : Pan) (f : Bytes → Res Bytes), ((Res.panic e : Res Bytes) >>= f) = Res.panic e := fun _ _ => rfl
+    have hbl : (bytesN (rnd.take 16)).length = 16 := by rw [bytesN_length, hNl]
+    have hol : (bytesN (buf.take p)).length = p := by rw [bytesN_length, List.length_take]; omega
+    have hctl' : (bytesN ct).length = ct.length := bytesN_length ct
+    simp only [sealC, hbl, ne_eq, not_true_eq_false, if_false, ← hctb, hbind, hctl']
+    generalize hH1 : hdrBytes (1028 : UInt16) L16 = H1
+    have hH1l : H1.length = 4 := by rw [← hH1]; rfl
+    have hH1b : bytesN H1 = Nts.be16 extAuthenticator ++ Nts.be16 ((8 + 16 + 0 + cl16.toNat + (65536 - cl16.toNat) % 65536 % 4) % 65536) := by
+      rw [← hH1, hdrBytes_be, hL16]; rfl
+    unfold putHdr
+    simp only [hol]
+    by_cases h4 : p + 4 ≤ buf.length
+    · rw [if_pos h4, if_neg (by omega)]
+      simp only [Option.bind_some, hbind, List.length_append, hol, Nts.be16, List.length_cons, List.length_nil]
+      by_cases h8 : p + 8 ≤ buf.length
+      · rw [if_neg (by omega)]
+        simp only [hbind]
+        generalize hB16 : ([((16 : UInt16) >>> 8).toUInt8, (16 : UInt16).toUInt8] : List UInt8) = B16
+        generalize hBcl : ([(cl16 >>> 8).toUInt8, cl16.toUInt8] : List UInt8) = Bcl
+        have hB16l : B16.length = 2 := by rw [← hB16]; rfl
+        have hBcll : Bcl.length = 2 := by rw [← hBcl]; rfl
+        have hp1 : Go.putU16? (splice buf p H1) (Int64.ofNat (p + 4)) 16 = some (splice buf p (H1 ++ B16)) := by
+          have := put_step buf H1 16 p hL (by rw [hH1l]; exact h4)
+          rw [hH1l, if_pos (by omega), hB16] at this; exact this
+        have hWb : (H1 ++ B16).length = 6 := by rw [List.length_append, hH1l, hB16l]
+        have hp2 : Go.putU16? (splice buf p (H1 ++ B16)) (Int64.ofNat (p + 4) + 2) cl16 = some (splice buf p (H1 ++ B16 ++ Bcl)) := by
+          have := put_step buf (H1 ++ B16) cl16 p hL (by rw [hWb]; omega)
+          rw [hWb, if_pos (by omega), hBcl] at this
+          rw [ofNat_add (p + 4) 2 2 k2 (by omega)]; exact this
+        have hWc : (H1 ++ B16 ++ Bcl).length = 8 := by rw [List.length_append, hWb, hBcll]
+        generalize hW1 : (rnd.take 16).take (buf.length - (p + 8)) = W1
+        have hW1l : W1.length ≤ buf.length - (p + 8) := by rw [← hW1, List.length_take]; omega
+        have hc1 : Go.copyAt? (splice buf p (H1 ++ B16 ++ Bcl)) (Int64.ofNat (p + 4) + 4) (rnd.take 16) =
+            some (splice buf p (H1 ++ B16 ++ Bcl ++ W1), Int64.ofNat W1.length) := by
+          have := copy_step buf (H1 ++ B16 ++ Bcl) (rnd.take 16) p hL (by rw [hWc]; omega)
+          rw [hWc, hW1] at this
+          rw [ofNat_add (p + 4) 4 4 k4 (by omega)]; exact this
+        have hWd : (H1 ++ B16 ++ Bcl ++ W1).length = 8 + W1.length := by rw [List.length_append, hWc]
+        have hc2 : Go.copyAt? (splice buf p (H1 ++ B16 ++ Bcl ++ W1)) (Int64.ofNat (p + 4) + 4 + Int64.ofNat W1.length) [] =
+            some (splice buf p (H1 ++ B16 ++ Bcl ++ W1), Int64.ofNat 0) := by
+          have := copy_step buf (H1 ++ B16 ++ Bcl ++ W1) [] p hL (by rw [hWd]; omega)
+          rw [hWd, List.take_nil, List.append_nil] at this
+          rw [ofNat_add (p + 4) 4 4 k4 (by omega), ofNat_add (p + 4 + 4) W1.length _ (ofNat_toInt _ (by omega)) (by omega)]
+          have e : p + 4 + 4 + W1.length = p + (8 + W1.length) := by omega
+          rw [e]; exact this
+        generalize hW3 : ct.take (buf.length - (p + 8 + W1.length)) = W3
+        have hW3l : W3.length ≤ buf.length - (p + 8 + W1.length) := by rw [← hW3, List.length_take]; omega
+        have hpos3 : Int64.ofNat (p + 4) + 4 + Int64.ofNat W1.length + Int64.ofNat 0 = Int64.ofNat (p + (8 + W1.length)) := by
+          rw [ofNat_add (p + 4) 4 4 k4 (by omega), ofNat_add (p + 4 + 4) W1.length _ (ofNat_toInt _ (by omega)) (by omega),
+            ofNat_add _ 0 _ (ofNat_toInt _ (by omega)) (by omega)]
+          congr 1; omega
+        have hc3 : Go.copyAt? (splice buf p (H1 ++ B16 ++ Bcl ++ W1)) (Int64.ofNat (p + 4) + 4 + Int64.ofNat W1.length + Int64.ofNat 0) ct =
+            some (splice buf p (H1 ++ B16 ++ Bcl ++ W1 ++ W3), Int64.ofNat W3.length) := by
+          have := copy_step buf (H1 ++ B16 ++ Bcl ++ W1) ct p hL (by rw [hWd]; omega)
+          rw [hWd, ← Nat.add_assoc, hW3] at this
+          rw [hpos3, ← Nat.add_assoc]; exact this
+        have hWe : (H1 ++ B16 ++ Bcl ++ W1 ++ W3).length = 8 + W1.length + W3.length := by rw [List.length_append, hWd]
+        generalize hW4 : Pad.take (buf.length - (p + 8 + W1.length + W3.length)) = W4
+        have hW4l : W4.length ≤ buf.length - (p + 8 + W1.length + W3.length) := by rw [← hW4, List.length_take]; omega
+        have hpos4 : Int64.ofNat (p + 4) + 4 + Int64.ofNat W1.length + Int64.ofNat 0 + Int64.ofNat W3.length =
+            Int64.ofNat (p + 8 + W1.length + W3.length) := by
+          rw [hpos3, ofNat_add _ W3.length _ (ofNat_toInt _ (by omega)) (by omega)]; congr 1; omega
+        have hc4 : Go.copyAt? (splice buf p (H1 ++ B16 ++ Bcl ++ W1 ++ W3))
+            (Int64.ofNat (p + 4) + 4 + Int64.ofNat W1.length + Int64.ofNat 0 + Int64.ofNat W3.length) Pad =
+            some (splice buf p (H1 ++ B16 ++ Bcl ++ W1 ++ W3 ++ W4), Int64.ofNat W4.length) := by
+          have := copy_step buf (H1 ++ B16 ++ Bcl ++ W1 ++ W3) Pad p hL (by rw [hWe]; omega)
+          rw [hWe] at this
+          rw [hpos4]
+          have e : p + (8 + W1.length + W3.length) = p + 8 + W1.length + W3.length := by omega
+          rw [e, hW4] at this; exact this
+        have hpos5 : Int64.ofNat (p + 4) + 4 + Int64.ofNat W1.length + Int64.ofNat 0 + Int64.ofNat W3.length + Int64.ofNat W4.length =
+            Int64.ofNat (p + 8 + W1.length + W3.length + W4.length) := by
+          rw [hpos4, ofNat_add _ W4.length _ (ofNat_toInt _ (by omega)) (by omega)]
+        simp only [hp1, hp2, hc1, hc2, hc3, hc4, hpos5, Option.bind_some]
+        generalize hX : (pure _ : Res Bytes) = R
+        have hR : R = .ok (bytesN (buf.take p) ++ bytesN (H1 ++ B16 ++ Bcl ++ W1 ++ W3 ++ W4)) := by
+          rw [← hX]
+          show Res.ok _ = Res.ok _
+          congr 1
+          have hz0 : zeros ((65536 - 16 % 65536) % 65536 % 4) = [] := by decide
+          have hHH : bytesN (B16 ++ Bcl) = [16 % 65536 / 256 % 256, 16 % 65536 % 256] ++ [ct.length % 65536 / 256 % 256, ct.length % 65536 % 256] := by
+            rw [← hB16, ← hBcl, ← hcl]; exact hdrBytes_be 16 cl16
+          have hPadb : bytesN Pad = zeros ((65536 - ct.length % 65536) % 65536 % 4) := by rw [← hPad, bytesN_zeros, hcp, hcl]
+          have hLeq : (8 + 16 % 65536 + (65536 - 16 % 65536) % 65536 % 4 + ct.length % 65536 + (65536 - ct.length % 65536) % 65536 % 4) % 65536 =
+              (8 + 16 + 0 + cl16.toNat + (65536 - cl16.toNat) % 65536 % 4) % 65536 := by rw [hcl]
+          rw [hLeq, hz0]
+          have hpre : bytesN (buf.take p) ++ [extAuthenticator / 256 % 256, extAuthenticator % 256] ++
+                [(8 + 16 + 0 + cl16.toNat + (65536 - cl16.toNat) % 65536 % 4) % 65536 / 256 % 256,
+                  (8 + 16 + 0 + cl16.toNat + (65536 - cl16.toNat) % 65536 % 4) % 65536 % 256] ++
+                [16 % 65536 / 256 % 256, 16 % 65536 % 256] ++ [ct.length % 65536 / 256 % 256, ct.length % 65536 % 256] =
+              bytesN (buf.take p) ++ bytesN (H1 ++ B16 ++ Bcl) := by
+            rw [List.append_assoc H1, bytesN_append H1, hH1b, hHH]
+            simp only [Nts.be16, List.append_assoc]
+          rw [hpre]
+          have hl1 : (bytesN (buf.take p) ++ bytesN (H1 ++ B16 ++ Bcl)).length = p + 8 := by
+            rw [List.length_append, hol, bytesN_length, hWc]
+          rw [copyTrunc_bytes _ _ (rnd.take 16) (p + 8) hl1, hW1, copyTrunc_nil]
+          have hl2 : (bytesN (buf.take p) ++ bytesN (H1 ++ B16 ++ Bcl) ++ bytesN W1).length = p + 8 + W1.length := by
+            rw [List.length_append, hl1, bytesN_length]
+          rw [copyTrunc_bytes _ _ ct (p + 8 + W1.length) hl2, hW3, ← hPadb]
+          have hl3 : (bytesN (buf.take p) ++ bytesN (H1 ++ B16 ++ Bcl) ++ bytesN W1 ++ bytesN W3).length = p + 8 + W1.length + W3.length := by
+            rw [List.length_append, hl2, bytesN_length]
+          rw [copyTrunc_bytes _ _ Pad (p + 8 + W1.length + W3.length) hl3, hW4]
+          simp only [bytesN_append, List.append_assoc]
+        rw [hR]
+        have hWl : (H1 ++ B16 ++ Bcl ++ W1 ++ W3 ++ W4).length = 8 + W1.length + W3.length + W4.length := by
+          rw [List.length_append, hWe]
+        have hlen : (bytesN (buf.take p) ++ bytesN (H1 ++ B16 ++ Bcl ++ W1 ++ W3 ++ W4)).length =
+            p + (H1 ++ B16 ++ Bcl ++ W1 ++ W3 ++ W4).length := by
+          rw [List.length_append, hol, bytesN_length]
+        obtain ⟨r1, r2, r3⟩ := splice_result buf (H1 ++ B16 ++ Bcl ++ W1 ++ W3 ++ W4) p (by rw [hWl]; omega)
+        refine ⟨splice buf p (H1 ++ B16 ++ Bcl ++ W1 ++ W3 ++ W4), ?_, ?_, ?_, r3⟩
+        · have e : p + (8 + W1.length + W3.length + W4.length) = p + 8 + W1.length + W3.length + W4.length := by omega
+          rw [hlen, hWl, e]
+        · rw [hlen]; exact r1
+        · rw [hlen]; exact r2
+      · rw [if_pos (by omega)]
+        simp only [hbindp]
+        have hp1 := put_step buf H1 16 p hL (by rw [hH1l]; exact h4)
+        rw [hH1l] at hp1
+        rw [hp1]
+        by_cases h6 : p + 4 + 2 ≤ buf.length
+        · rw [if_pos h6]
+          simp only [Option.bind_some]
+          have hp2 := put_step buf (H1 ++ [((16 : UInt16) >>> 8).toUInt8, (16 : UInt16).toUInt8]) cl16 p hL
+            (by rw [List.length_append, hH1l]; exact h6)
+          rw [List.length_append, hH1l] at hp2
+          rw [ofNat_add (p + 4) 2 2 k2 (by omega)]
+          rw [show p + (4 + [((16 : UInt16) >>> 8).toUInt8, (16 : UInt16).toUInt8].length) = p + 4 + 2 from rfl] at hp2
+          rw [hp2, if_neg (by omega)]
+          rfl
+        · rw [if_neg h6]; rfl
+    · rw [if_neg h4, if_pos (by omega)]
+      simp only [hbindp]
+      rfl
+
+/-- non-vacuity of `AgreeSeal`: a toy library (identity "encryption" plus a 16-byte tag) -/
+def toyNe : NewErr := fun _ k _ => !(k.length == 32 || k.length == 64)
+def toySl : SealF := fun _ _ _ pt _ => if pt.length < 100 then some (pt ++ List.replicate 16 7) else some []
+def toyA : AEAD := { sealF := fun _ _ p _ => if p.length < 100 then p ++ List.replicate 16 7 else [],
+                     openF := fun _ _ c _ => some c }
+
+example : AgreeSeal toyNe toySl toyA where
+  newErr := by intro key; simp [toyNe, keyOk, bytesN]
+  seals := by
+    intro key n pt ad _
+    by_cases h : pt.length < 100
+    · refine ⟨pt ++ List.replicate 16 7, by simp [toySl, h], ?_, by simp; omega⟩
+      simp [toyA, bytesN, h]
+    · exact ⟨[], by simp [toySl, h], by simp [toyA, bytesN, h], by simp⟩
+
+/-- an authenticator with an empty plaintext at position 0 of a 48-byte buffer: 40 bytes written -/
+example : (nts_Authenticator_pack
+      { extHdr := { Type' := 0, Length := 0 }, Nonce := [], CipherText := [], Key := List.replicate 32 1, PlainText := [], pos := 0 }
+      (List.replicate 48 9) 0 (List.replicate 20 3) toyNe toySl).map (fun r => (r.1.take 10, r.2.1.length, r.2.2)) =
+    some ([4, 4, 0, 40, 0, 16, 0, 16, 3, 3], 4, 40, false) := by decide +kernel
 
 /-- non-vacuity: a 5-byte cookie at position 2 of a 20-byte buffer — header, value, three padding
     bytes; and the truncation at the end of a 12-byte buffer -/
